@@ -49,6 +49,9 @@ PROBLEMS = {
                                                                      useful_life_at_arrival_distribution_c_1=[0.3])),
 }
 CAP = 60
+# the sweep neighbour whose configuration a reused solver configuration object still carries (same shapes)
+SWEEP = {"de_moor": dict(shortage_cost=9.0, demand_gamma_mean=2.5), "forest": dict(p=0.45, r1=9.0),
+         "mirjalili": dict(shortage_cost=11.0, fixed_order_cost=1.0)}
 EPS = {"vi": 0.3, "pi": 1e-3, "rvi": 1e-2, "per": 0.3, "sa": 0.3}
 
 
@@ -149,7 +152,11 @@ def _resume(case, sv, base):
         D = os.path.join(base, f"d{k}")
         ck = dict(checkpoint_frequency=f, max_checkpoints=case["m"], enable_async_checkpointing=case["asyn"])
         where = f"{sv} on {case['pname']} k={k} f={f} m={case['m']} async={case['asyn']} route={case['route']} options={vkw}"
-        first, err = leg(dict(mode="first", solver=sv, problem=prob, kw=_kw(sv, ck, vkw), k=k, dir=D))
+        reuse = None
+        if prob.get("kind") == "shipped" and (k + case["case_id"]) % 2:
+            reuse = SWEEP[prob["name"]]
+            where += " construction=reused-config-object+instance"
+        first, err = leg(dict(mode="first", solver=sv, problem=prob, kw=_kw(sv, ck, vkw), k=k, dir=D, reuse_config=reuse))
         if first is None:
             return dict(status="violation", kind="first-leg-crash", detail=f"{where}: checkpointed run failed: {err}")
         d = _cmp(first["at_k"], traj[k])
